@@ -7,6 +7,11 @@ Pipeline
   2. conformance build harness/ext/atomicwrite (package main, argv[0] does not end in .test), run it under strace,
                  parse the system calls of every case (parse_strace/build_events), write NDJSON, TLC validates it
                  against TraceAtomicFile.tla with Crash enabled after every event.
+  2b. fault runs: the same driver run with ONE system call failed by `strace -e inject=<call>:error=E:when=K`
+                 (fsync of the temp file / of the directory -> EIO, write -> ENOSPC, renameat -> EIO); K is taken from
+                 the fault-free run (the driver pins its main goroutine to the main thread, so strace's per-thread
+                 counters are deterministic); failed calls become FsyncFail/Failed events; same invariants, Crash
+                 after every event.
   3. binding controls: corrupt a real recorded trace (drop the fsync, rename before fsync, fsync the wrong fd: must
                  be rejected; harmless reorderings and a dropped directory fsync: must be accepted).
 """
@@ -41,6 +46,9 @@ ASSUMPTIONS = [
     "the process; one directory per case (cross-directory AtomicRename is not modelled)",
     "the statement does not require New to be durable when the call returns, so a lost rename (Old survives) is "
     "allowed: the directory fsync is observed and reported but its absence alone is not a C06 violation",
+    "faults (strace -e inject): a system call that returns an error has no effect; a FAILED fsync of a file makes "
+    "nothing durable and marks the inode bad (its dirty pages may have been dropped: a later successful fsync of that "
+    "inode proves nothing); a failed directory fsync makes nothing durable; one injected fault per run",
     "content abstraction: one chunk per write(2)/copy_file_range(2); chunk k is 'New chunk k' only if it is contiguous "
     "from offset 0 and its first bytes equal New at that offset; the driver reads the final file back",
 ]
@@ -158,6 +166,7 @@ class CaseTrace:
         self.syscalls = 0
         self.sig = []           # compact signature of the modelled calls, in order
         self.newc = []
+        self.injected = []      # (syscall, strace line, mapped to an event?) of calls failed by strace fault injection
 
 
 def _flags(tok):
@@ -184,8 +193,12 @@ def build_case(rec, calls, new_bytes):
         e = {"ev": kind, "case": case, "src": src.lineno}
         e.update(kw)
         evs.append(e)
-        ct.sig.append(kind if kind not in ("Open", "Rename", "Unlink") else
-                      "%s(%s)" % (kind, ",".join(_role(kw.get(k)) for k in ("name", "from", "to") if k in kw)))
+        if kind in ("Open", "Rename", "Unlink"):
+            ct.sig.append("%s(%s)" % (kind, ",".join(_role(kw.get(k)) for k in ("name", "from", "to") if k in kw)))
+        elif kind in ("FsyncFail", "Failed", "Fsync"):
+            ct.sig.append("%s(%s)" % (kind, kw.get("what")))
+        else:
+            ct.sig.append(kind)
 
     def _role(name):
         if name == rec["target"]:
@@ -233,7 +246,34 @@ def build_case(rec, calls, new_bytes):
         n = s.name
         a = s.args
         if r < 0:
-            ct.dropped += 1
+            # a call that returned an error (in fault runs: injected by strace) has no effect, except that a failed
+            # fsync is an event of its own (spec D7); failed calls on other directories are dropped
+            fk = None
+            try:
+                if n in ("fsync", "fdatasync") and int(a[0]) in fdtab:
+                    fd = int(a[0])
+                    ev("FsyncFail", s, fd=fd, what=fdtab[fd]["kind"], err=s.err[:60])
+                    fk = True
+                elif n in ("write", "pwrite64", "writev") and int(a[0]) in fdtab:
+                    ev("Failed", s, what="write", err=s.err[:60])
+                    fk = True
+                elif n == "copy_file_range" and int(a[2]) in fdtab:
+                    ev("Failed", s, what="write", err=s.err[:60])
+                    fk = True
+                elif n in ("rename", "renameat", "renameat2"):
+                    if n == "rename":
+                        p1, p2 = path_arg(s, None, a[0]), path_arg(s, None, a[1])
+                    else:
+                        p1, p2 = path_arg(s, a[0], a[1]), path_arg(s, a[2], a[3])
+                    if (p1 and inside(p1) is not None) or (p2 and inside(p2) is not None):
+                        ev("Failed", s, what="rename", err=s.err[:60])
+                        fk = True
+            except (ValueError, IndexError):
+                pass
+            if "INJECTED" in s.err:
+                ct.injected.append((n, s.lineno, bool(fk)))
+            if not fk:
+                ct.dropped += 1
             continue
         if n in ("openat", "open", "creat"):
             if n == "openat":
@@ -466,11 +506,16 @@ def split_cases(calls):
 
 # ------------------------------------------------------------------------------------------------ running things
 
-def run_driver(ctx, reps, nck, tag="run"):
-    """Build and strace the driver. -> (manifest records, strace path, new-bytes loader)"""
+def build_driver(ctx):
     binp = goharness.ext_build(ctx, "atomicwrite", name="atomicwrite-driver")
     if binp.endswith(".test"):
         raise InfraError("driver binary name ends in .test")
+    return binp
+
+
+def run_driver(ctx, binp, reps, nck, tag="run", inject=None):
+    """strace the driver. inject: strace fault-injection expression, e.g. "fsync:error=EIO:when=3".
+    -> (manifest records, strace path)"""
     d = ctx.subdir("strace_" + tag)
     root = os.path.join(d, "root")
     os.makedirs(root)
@@ -480,19 +525,95 @@ def run_driver(ctx, reps, nck, tag="run"):
     env.pop("SNAPD_UNSAFE_IO", None)
     env.pop("SNAPD_DEBUG", None)
     import subprocess
-    cmd = ["strace", "-f", "-s", "128", "-e", "trace=" + SYSCALLS, "-o", st,
-           binp, "-root", root, "-manifest", mf, "-seed", str(ctx.seed), "-reps", str(reps), "-checkpoints", str(nck)]
+    cmd = ["strace", "-f", "-s", "128", "-e", "trace=" + SYSCALLS]
+    if inject:
+        cmd += ["-e", "inject=" + inject]
+    cmd += ["-o", st, binp, "-root", root, "-manifest", mf, "-seed", str(ctx.seed), "-reps", str(reps),
+            "-checkpoints", str(nck)]
     try:
         p = subprocess.run(cmd, env=env, stdout=subprocess.PIPE, stderr=subprocess.STDOUT, timeout=900)
         rc, out = p.returncode, p.stdout.decode("utf-8", "replace")
     except subprocess.TimeoutExpired:
         raise InfraError("atomicwrite driver timed out under strace")
     if rc != 0 or "PASS" not in out:
-        raise InfraError("atomicwrite driver failed rc=%s\n%s" % (rc, common.tail(out, 30)))
+        raise InfraError("atomicwrite driver failed rc=%s (inject=%s)\n%s" % (rc, inject, common.tail(out, 30)))
     recs = common.read_ndjson(mf)
     if not recs:
         raise InfraError("atomicwrite driver produced no cases")
     return recs, st
+
+
+# ---- fault runs: the same driver invocation with ONE system call failed by strace (-e inject=...:when=K)
+
+def plan_faults(cts, calls, want):
+    """Pick the calls to fail from the fault-free run. The driver issues every system call of the cases from its
+    main thread (runtime.LockOSThread) and is deterministic for a seed, so the K-th fsync/write/renameat of that
+    thread in the fault-free run is the K-th in the fault run too (verified after each fault run).
+
+    want: list of (variant, old, kind) with kind in fsync-file, fsync-dir, write, rename
+    -> list of dict(case, variant, old, kind, inject)"""
+    import collections
+    main = collections.Counter(s.pid for s in calls).most_common(1)[0][0]
+    counters = {}
+    index = {}          # strace line -> (syscall name, K)
+    for s in calls:
+        if s.pid != main:
+            continue
+        counters[s.name] = counters.get(s.name, 0) + 1
+        index[s.lineno] = (s.name, counters[s.name])
+    plans = []
+    for variant, old, kind in want:
+        ct = next((c for c in cts if c.rec["variant"] == variant and bool(c.rec["old"]) == old), None)
+        if ct is None:
+            raise InfraError("fault plan: no case %s old=%s" % (variant, old))
+        src = None
+        nth_write = 0
+        for e in ct.events:
+            if kind == "fsync-file" and e["ev"] == "Fsync" and e.get("what") == "file":
+                src = e["src"]
+                break
+            if kind == "fsync-dir" and e["ev"] == "Fsync" and e.get("what") == "dir":
+                src = e["src"]
+                break
+            if kind == "write" and e["ev"] == "Write" and e.get("via") == "write":
+                src = e["src"]           # the LAST write of the case: earlier chunks are already in the temp file
+            if kind == "rename" and e["ev"] == "Rename":
+                src = e["src"]
+                break
+        if src is None:
+            continue                     # this variant has no such call (e.g. rename: no file fsync)
+        if src not in index:
+            raise InfraError("fault plan: call at strace line %s of %s was not issued by the main thread" % (src, ct.rec["case"]))
+        name, k = index[src]
+        err = {"fsync-file": "EIO", "fsync-dir": "EIO", "write": "ENOSPC", "rename": "EIO"}[kind]
+        plans.append({"case": ct.rec["case"], "variant": variant, "old": old, "kind": kind,
+                      "inject": "%s:error=%s:when=%d" % (name, err, k)})
+    return plans
+
+
+def run_fault(ctx, binp, reps, nck, plan, n):
+    """One fault run. -> CaseTrace of the case that received the fault (rec["fault"] set)."""
+    recs, st = run_driver(ctx, binp, reps, nck, tag="fault%d" % n, inject=plan["inject"])
+    calls = parse_strace(st)
+    per_case = split_cases(calls)
+    rec = next((r for r in recs if r["case"] == plan["case"]), None)
+    if rec is None or plan["case"] not in per_case:
+        raise InfraError("fault run %s: case %s missing" % (plan["inject"], plan["case"]))
+    inj = [s for s in calls if "INJECTED" in s.err]
+    if len(inj) != 1:
+        raise InfraError("fault run %s: %d injected calls, expected 1" % (plan["inject"], len(inj)))
+    if inj[0] not in per_case[plan["case"]]:
+        raise InfraError("fault run %s: the injected call (strace line %d) is not inside case %s" % (
+            plan["inject"], inj[0].lineno, plan["case"]))
+    with open(rec["new_file"], "rb") as f:
+        nb = f.read()
+    rec["fault"] = plan["kind"]
+    rec["inject"] = plan["inject"]
+    rec["case"] = "%s+%s" % (plan["case"], plan["kind"])      # unique among the fault runs
+    ct = build_case(rec, per_case[plan["case"]], nb)
+    if not ct.injected or not ct.injected[0][2]:
+        raise InfraError("fault run %s: the injected call was not mapped to an event: %s" % (plan["inject"], inj[0].raw[:160]))
+    return ct
 
 
 def load_traces(recs, strace_path):
@@ -587,7 +708,8 @@ def validate_cases(ctx, cts, max_violations=12):
         if not bad:
             raise InfraError("trace validation: line %d belongs to no case: %r" % (line, e))
         bad = bad[0]
-        group = [ct for ct in remaining if (ct.rec["variant"], ct.rec["old"]) == (bad.rec["variant"], bad.rec["old"])]
+        gk = lambda c: (c.rec["variant"], c.rec["old"], c.rec.get("fault"))
+        group = [ct for ct in remaining if gk(ct) == gk(bad)]
         findings.append({"ct": bad, "invariant": v["invariant"], "event": e, "last": v["last"], "group": len(group),
                          "tlc": common.tail(v["res"].out, 60)})
         remaining = [ct for ct in remaining if ct not in group]
@@ -611,8 +733,8 @@ def describe_event(rec, e):
         return "Rename(%s->%s)" % (role(rec, e["from"]), role(rec, e["to"]))
     if k in ("Open", "Unlink", "Symlink", "RenameIn"):
         return "%s(%s)" % (k, role(rec, e["name"]))
-    if k == "Fsync":
-        return "Fsync(%s)" % e.get("what", "?")
+    if k in ("Fsync", "FsyncFail", "Failed"):
+        return "%s(%s)" % (k, e.get("what", "?"))
     return k
 
 
